@@ -2,6 +2,10 @@ import CalVerif.Lemmas.OvbaLoops
 import CalVerif.Lemmas.OvbaDir
 import CalVerif.Lemmas.OvbaFuel
 import CalVerif.Lemmas.OvbaNoPanic
+import CalVerif.Lemmas.OvbaBound
+import CalVerif.Lemmas.Cfb
+import CalVerif.Model.OvbaProject
+import CalVerif.Spec.OvbaProject
 /-! # C18 — VBA modules are extracted byte-exact from the compressed project
 
     Theorems about `Ovba.decompress` (model of `src/cfb.rs decompress_stream`, after the D16 fix) against the
@@ -229,6 +233,13 @@ theorem dirWalk_no_panic (s : Bytes) (m : String) : dirWalk s ≠ .panic m := (d
 theorem project_no_panic (d : Option Bytes) (lookup : Bytes → Option Bytes) (m : String) :
     project d lookup ≠ .panic m := (project_np d lookup).ne m
 
+/-- **Allocation bound (C06).** Whatever the input, the decompressed buffer is at most 2049 times as long as the
+    input: a copy token (2 input bytes) yields at most 4098 bytes (12-bit length field + 3), a literal 1 byte for
+    1 byte, a raw chunk 4096 bytes for 4098. (The true maximum is about 820: one maximal copy per 5-byte chunk;
+    2049 is the per-token constant, provable without tracking the position inside the chunk.) -/
+theorem decompress_output_bound (s out : Bytes) (h : decompress s = .ok out) : out.length ≤ 2049 * s.length :=
+  decompress_out_le s out h
+
 /-! ## ledger D16: the loop before the fix (history) -/
 
 /-- the `'chunk` loop as it was before the D16 fix: `if i >= s.len() { break; }` only -/
@@ -361,5 +372,169 @@ def sampleDir : DirSpec :=
 
 example : sampleDir.wf = true := by decide +kernel
 example : (serDir sampleDir).length = 508 := by decide +kernel
+
+/-! ## C13 ∘ C18: the project read out of a compound file -/
+
+/-- **C18 end to end (model).** Take any well-formed project description `p`, any valid container `dirCs` of its
+    serialized `dir` stream, for every module any valid container `content m` of its source preceded by
+    `m.offset` arbitrary bytes, and lay these streams out as a compound file by **any** valid layout `L`
+    (sector size, fragmentation, FAT/DIFAT placement, mini stream, directory order …). Then `VbaProject::new` on
+    that file returns the project's code page, its references and, for every MODULE record in order, the module
+    name with exactly the source bytes — byte-exact from the compressed project, whatever the container layout and
+    whatever `len` is passed. `decodeName` is the (trusted) text decoder applied to stream names; the statement
+    holds for every decoder, the layout's validity (`Cfb.Valid`: distinct, non-empty stream names of at most 31
+    UTF-16 units) being stated on the decoded names. The byte-level restrictions of `Ovba.project` (libid parsing
+    on ASCII-transparent code pages) are those of the model, see `Model/Ovba.lean`. -/
+theorem vba_from_container (p : DirSpec) (dirCs : List Chunk) (content : ModuleSpec → List Chunk)
+    (junk : ModuleSpec → Bytes) (decodeName : Bytes → List Char) (L : Cfb.Layout) (len : Nat)
+    (hw : p.wf = true) (hd : Valid dirCs) (he : expand dirCs = serDir p)
+    (hc : ∀ m ∈ p.modules, Valid (content m) ∧ (junk m).length = m.offset)
+    (hL : Cfb.Valid (projectStreams p dirCs content junk decodeName) L) :
+    vbaProjectNew decodeName (Cfb.layoutCfb (projectStreams p dirCs content junk decodeName) L) len =
+      .ok { codepage := p.codepage, references := p.refs.map refResult,
+            modules := p.modules.map fun m => (m.name, expand (content m)) } := by
+  have hv := Cfb.valid_unpack _ _ hL
+  obtain ⟨c, rd, hnew, hg⟩ := Cfb.new_layout_good _ _ hv
+  have hlook := fun st hst => Cfb.lookupOf_stream _ L hv c rd hg st hst
+  unfold vbaProjectNew
+  rw [Cfb.new_len_independent _ len (Cfb.layoutCfb (projectStreams p dirCs content junk decodeName) L).length, hnew]
+  simp only [Res.bind_ok]
+  have hdir : Cfb.lookupOf c rd "dir".toList = some (container dirCs) :=
+    hlook { name := "dir".toList, data := container dirCs } (by simp [projectStreams])
+  rw [hdir]
+  rw [project_correct p dirCs (fun n => Cfb.lookupOf c rd (decodeName n)) content hw hd he]
+  · simp
+  · intro m hm
+    refine ⟨junk m, (hc m hm).2, ?_, (hc m hm).1⟩
+    exact hlook { name := decodeName m.streamName, data := junk m ++ container (content m) }
+      (by simp only [projectStreams, List.mem_cons, List.mem_map]; exact .inr ⟨m, hm, rfl⟩)
+
+/-! ### non-vacuity of `vba_from_container` -/
+
+def tinyDir : DirSpec :=
+  { sysKind := 1, compat := none, lcid := 0x409, lcidInvoke := 0x409, codepage := 1252,
+    name := [86], doc := [], docUnicode := [], help1 := [], help2 := [], helpContext := 0, libFlags := 0,
+    versionMajor := 1, versionMinor := 0, constants := [], constantsUnicode := [],
+    refs := [], cookie := 0xFFFF,
+    modules := [
+      { name := [77, 49], nameUnicode := [77, 0, 49, 0], streamName := [77, 49], streamNameUnicode := [77, 0, 49, 0],
+        doc := [], docUnicode := [], offset := 3, helpContext := 0, cookie := 0xFFFF,
+        document := false, readOnly := false, priv := false }] }
+
+def tinyDirCs : List Chunk := [.compressed ((serDir tinyDir).map Token.lit)]
+def tinyContent (_ : ModuleSpec) : List Chunk := [.compressed [.lit 83, .lit 117, .lit 98, .copy 3 9]]
+def tinyJunk (_ : ModuleSpec) : Bytes := [1, 2, 3]
+def asciiName (b : Bytes) : List Char := b.map fun x => Char.ofNat x.toNat
+def tinyStreams := projectStreams tinyDir tinyDirCs tinyContent tinyJunk asciiName
+
+/-- a fragmented version-3 layout: FAT in sector 1, mini stream / directory / mini FAT out of order, one free
+    sector; the `dir` stream in mini sectors 5,0,2,1, the module stream in mini sector 3, mini sector 4 free;
+    directory order module / unused / dir -/
+def tinyLayout : Cfb.Layout :=
+  { v4 := false
+    main := { owner := #[.data 2 0, .fat 0, .free, .data 0 0, .data 1 0]
+              chains := #[#[3], #[4], #[0], #[], #[]] }
+    fatIds := #[1]
+    difIds := #[]
+    mini := { owner := #[.data 0 1, .data 0 3, .data 0 2, .data 1 0, .free, .data 0 0], chains := #[#[5, 0, 2, 1], #[3]] }
+    dirOrder := [some 1, none, some 0]
+    fill := 0x5A }
+
+theorem tinyValid : Cfb.Valid tinyStreams tinyLayout := by decide +kernel
+
+/-- the hypotheses of `vba_from_container` are satisfiable: a project with one module in a fragmented container -/
+example : vbaProjectNew asciiName (Cfb.layoutCfb tinyStreams tinyLayout) 0 =
+    .ok { codepage := 1252, references := [], modules := [([77, 49], [83, 117, 98, 83, 117, 98, 83, 117, 98, 83, 117, 98])] } := by
+  have h := vba_from_container tinyDir tinyDirCs tinyContent tinyJunk asciiName tinyLayout 0
+    (by decide +kernel) (by decide +kernel) (by decide +kernel)
+    (by intro m hm; simp only [tinyDir, List.mem_singleton] at hm; subst hm
+        exact ⟨by unfold tinyContent; decide +kernel, rfl⟩) tinyValid
+  rw [show tinyStreams = projectStreams tinyDir tinyDirCs tinyContent tinyJunk asciiName from rfl, h]
+  decide +kernel
+
+/-! ## the text of a module -/
+
+theorem lookup_reverse_map {α β : Type} [BEq α] [LawfulBEq α] (l : List (α × β)) (k : α) (v : β)
+    (hmem : (k, v) ∈ l) (huniq : ∀ v', (k, v') ∈ l → v' = v) : l.reverse.lookup k = some v := by
+  have : ∀ (r : List (α × β)), (k, v) ∈ r → (∀ v', (k, v') ∈ r → v' = v) → r.lookup k = some v := by
+    intro r
+    induction r with
+    | nil => intro h; simp at h
+    | cons x xs ih =>
+      intro hm hu
+      obtain ⟨a, b⟩ := x
+      by_cases hk : k = a
+      · subst hk
+        have := hu b (by simp)
+        subst this
+        simp [List.lookup]
+      · have hne : (k == a) = false := by simpa using hk
+        simp only [List.lookup, hne]
+        apply ih
+        · rcases List.mem_cons.1 hm with h | h
+          · cases h; exact absurd rfl hk
+          · exact h
+        · intro v' hv'; exact hu v' (by simp [hv'])
+  exact this l.reverse (by simpa using hmem) (by intro v' hv'; exact huniq v' (by simpa using hv'))
+
+/-- **Raw content and text of a module.** For the project opened by `vba_from_container`, `get_module_raw` of a
+    module whose name occurs once gives exactly its source bytes, and `get_module` gives those bytes decoded by the
+    encoding object selected from the PROJECTCODEPAGE record — `decodeWith (encodingOf p.codepage)`, nothing else
+    (no other code page, no byte-order-mark switch: the decoder call is `decode_without_bom_handling`). -/
+theorem get_module_text (decodeWith : String → Bytes → String) (p : DirSpec) (content : ModuleSpec → List Chunk)
+    (m : ModuleSpec) (hm : m ∈ p.modules) (hu : ∀ m' ∈ p.modules, m'.name = m.name → m' = m) (hw : p.wf = true) :
+    let vp : VbaProjectSt := { codepage := p.codepage, references := p.refs.map refResult,
+                                modules := p.modules.map fun m => (m.name, expand (content m)) }
+    getModuleRaw vp m.name = .ok (expand (content m)) ∧
+    ∃ enc, encodingOf p.codepage = some enc ∧ getModule decodeWith vp m.name = .ok (decodeWith enc (expand (content m))) := by
+  intro vp
+  have hraw : getModuleRaw vp m.name = .ok (expand (content m)) := by
+    unfold getModuleRaw
+    rw [lookup_reverse_map (vp.modules) m.name (expand (content m))]
+    · simp only [vp, List.mem_map]; exact ⟨m, hm, rfl⟩
+    · intro v' hv'
+      simp only [vp, List.mem_map, Prod.mk.injEq] at hv'
+      obtain ⟨m', hm', hn, rfl⟩ := hv'
+      rw [hu m' hm' hn]
+  refine ⟨hraw, ?_⟩
+  have hk : knownCodepages.contains p.codepage = true := by
+    simp only [DirSpec.wf, Bool.and_eq_true] at hw
+    exact hw.1.1.1.1.1.1.1.1.1.1.1.1.1.1.1.2
+  have henc : ∃ enc, encodingOf p.codepage = some enc := by
+    have : ∀ cp ∈ knownCodepages, (encodingOf cp).isSome = true := by decide
+    have h := this p.codepage (by simpa using hk)
+    exact Option.isSome_iff_exists.1 h
+  obtain ⟨enc, henc⟩ := henc
+  refine ⟨enc, henc, ?_⟩
+  unfold getModule
+  rw [hraw]
+  simp only [Res.bind_ok, vp, henc]
+
+/-- the encoding table: what `XlsEncoding::from_codepage` selects (transcribed table, swept against the code) -/
+theorem encoding_selection :
+    encodingOf 1200 = some "UTF-16LE" ∧ encodingOf 65001 = some "UTF-8" ∧ encodingOf 1252 = some "windows-1252" ∧
+    encodingOf 1251 = some "windows-1251" ∧ encodingOf 932 = some "Shift_JIS" ∧ encodingOf 0 = none ∧
+    encodingOf 437 = none ∧
+    (∀ cp, knownCodepages.contains cp = (encodingOf cp).isSome) := by
+  refine ⟨by decide, by decide, by decide, by decide, by decide, by decide, by decide, ?_⟩
+  intro cp
+  by_cases h : cp ∈ knownCodepages
+  · have : ∀ c ∈ knownCodepages, (encodingOf c).isSome = true := by decide
+    rw [this cp h]; simpa using h
+  · have hn : knownCodepages.contains cp = false := by simpa using h
+    rw [hn]
+    symm
+    unfold encodingOf
+    rw [Option.isSome_map]
+    cases hf : codepageTable.find? (fun x => x.1 == cp) with
+    | none => rfl
+    | some x =>
+      exfalso
+      have h1 := List.find?_some hf
+      have h2 := List.mem_of_find?_eq_some hf
+      have : ∀ y ∈ codepageTable, y.1 ∈ knownCodepages := by decide
+      have := this x h2
+      rw [show x.1 = cp by simpa using h1] at this
+      exact h this
 
 end Ovba.C18
